@@ -323,6 +323,8 @@ def write_and_inspect(case_desc, yx, layout, dtype, ndkind, blocksize, src_chunk
 
 # -- slices ----------------------------------------------------------------------------------------------
 SHAPES = ((1, 1), (1, 33), (33, 1), (16, 16), (17, 31), (64, 48), (70, 50), (100, 130), (2, 40),
+          # sizes whose smallest overview is exactly one tile (tile x 2^n on both axes), and tile-sized on one axis only
+          (64, 64), (32, 32), (32, 128), (16, 50),
           # elongated: padding to 2^levels adds whole tiles
           (1, 300), (300, 1), (3, 200))
 LAYOUTS = ("YX", ("YXS", 2), ("YXS", 3), ("YXS", 4), ("SYX", 1), ("SYX", 2), ("SYX", 3), ("SYX", 4), ("SYX", 5), ("SYX", 6))
@@ -336,12 +338,15 @@ def gen_s1(tier):
                     continue
                 for dtype in ("uint8", "float32") if tier == "quick" else ("uint8", "int16", "float32"):
                     yield ("s1", yx, layout, dtype)
+                # the same shapes and layouts without compression (page layout decisions of the TIFF writer depend on it)
+                yield ("s1", yx, layout, "int16", "none")
 
     return g
 
 
 def run_s1(case):
-    _, yx, layout, dtype = case
+    _, yx, layout, dtype = case[:4]
+    comp = case[4] if len(case) > 4 else "deflate"
     lk = layout if layout == "YX" else f"{layout[0]}{layout[1]}"
     shp = ("1px" if yx == (1, 1) else "row" if yx[0] == 1 else "col" if yx[1] == 1 else "lt-tile" if max(yx) <= 16
            else "elongated" if max(yx) >= 16 * min(yx) else "multi")
@@ -349,8 +354,10 @@ def run_s1(case):
         shp = "long-row"
     if max(yx) >= 200 and yx[1] == 1:
         shp = "long-col"
-    r = R(outcome=f"s1:{lk}:{shp}")
-    write_and_inspect(str(case), yx, layout, dtype, "nodata", [16], (16, 16), r, f"{lk}:{shp}", compression="deflate")
+    if all(n % 16 == 0 and (n // 16) & (n // 16 - 1) == 0 for n in yx) and shp == "multi":
+        shp = "tile-times-2^n"
+    r = R(outcome=f"s1:{lk}:{shp}:{comp}")
+    write_and_inspect(str(case), yx, layout, dtype, "nodata", [16], (16, 16), r, f"{lk}:{shp}" + ("" if comp == "deflate" else f":{comp}"), compression=comp)
     return r
 
 
